@@ -332,13 +332,18 @@ let do_t (e : string) =
   String.concat "," (List.map (fun (v, s) -> Printf.sprintf "%d=%s" v s) l)
 
 (* ---------- H cases ---------- *)
+(* In H/X cases the error is the value type's own error enum, not wrapped in DecodeError: drop the
+   wrapper word.  [lab] = the error is a LabelError itself (Label::from_str / try_from). *)
+let own_words ?(lab = false) (e : M.err) : string list =
+  match err_words e with
+  | "LabelError" :: rest when lab -> rest
+  | ("AddressError" | "CookieError" | "TagError" | "ISDNError" | "DomainNameError") :: rest when rest <> [] -> rest
+  | "PSDNAddressError" :: rest -> "IllegalChar" :: rest
+  | w -> w
+let own_sp ?(lab = false) e = String.concat " " (own_words ~lab e)
 let res_word (r : unit M.res) = match r with
-  | M.Ok _ -> "ok" | M.Err e -> "err " ^ err_sp e | M.Panic _ -> "PANIC" | M.OutOfFuel -> "FUEL"
-let dn_err_words (e : M.err) =
-  (* DomainNameError wraps LabelError in the text API *)
-  match fst e with
-  | M.ELabelEmpty | M.ELabelLength -> "DomainNameError " ^ err_sp e
-  | _ -> err_sp e
+  | M.Ok _ -> "ok" | M.Err e -> "err " ^ own_sp e | M.Panic _ -> "PANIC" | M.OutOfFuel -> "FUEL"
+let dn_err_words (e : M.err) = own_sp e
 
 let do_h ty (ops : tree list) : string =
   let out = ref [] in
@@ -355,7 +360,7 @@ let do_h ty (ops : tree list) : string =
          | Node ("new", [src; scope; fam; a]) ->
            (match M.ecs_new (num src) (num scope) (addr_of fam a) with
             | M.Ok e -> st := Some e; emit "ok" (show ())
-            | M.Err e -> emit ("err " ^ err_sp e) (show ())
+            | M.Err e -> emit ("err " ^ own_sp e) (show ())
             | _ -> emit "PANIC" (show ()))
          | Node ("set_src", [v]) -> setter (M.ecs_set_src (num v))
          | Node ("set_scope", [v]) -> setter (M.ecs_set_scope (num v))
@@ -371,7 +376,7 @@ let do_h ty (ops : tree list) : string =
          | Node ("new", [p; neg; fam; a]) ->
            (match M.apitem_new (num p) (boolv neg) (addr_of fam a) with
             | M.Ok e -> st := Some e; emit "ok" (show ())
-            | M.Err e -> emit ("err " ^ err_sp e) (show ())
+            | M.Err e -> emit ("err " ^ own_sp e) (show ())
             | _ -> emit "PANIC" (show ()))
          | Node ("set_prefix", [v]) -> setter (M.apitem_set_prefix (num v))
          | Node ("set_addr", [fam; a]) -> setter (M.apitem_set_addr (addr_of fam a))
@@ -387,7 +392,7 @@ let do_h ty (ops : tree list) : string =
          | Node ("new", [c; s]) ->
            (match M.cookie_new (hex c) (opt_of s) with
             | M.Ok e -> st := Some e; emit "ok" (show ())
-            | M.Err e -> emit ("err " ^ err_sp e) (show ())
+            | M.Err e -> emit ("err " ^ own_sp e) (show ())
             | _ -> emit "PANIC" (show ()))
          | Node ("set_server", [s]) -> setter (M.cookie_set_server (opt_of s))
          | Node ("set_client", [c]) -> setter (fun k -> ({ k with M.c_client = hex c }, M.Ok ()))
@@ -400,7 +405,7 @@ let do_h ty (ops : tree list) : string =
            let l = hex l in
            (match M.check_label l with
             | M.Ok _ -> st := Some l; emit "ok" (show ())
-            | M.Err e -> emit ("err " ^ err_sp e) (show ())
+            | M.Err e -> emit ("err " ^ own_sp ~lab:true e) (show ())
             | _ -> emit "PANIC" (show ()))
          | _ -> emit "BAD-OP" (show ())) ops
    | "NAME" ->
@@ -419,11 +424,11 @@ let do_h ty (ops : tree list) : string =
             | Some nm ->
               let l = hex l in
               (match M.check_label l with
-               | M.Err e -> emit ("err " ^ err_sp e) (show ())
+               | M.Err e -> emit ("err " ^ own_sp ~lab:true e) (show ())
                | M.Ok _ ->
                  (match M.append_label nm l with
                   | M.Ok nm' -> st := Some nm'; emit "ok" (show ())
-                  | M.Err e -> emit ("err " ^ err_sp e) (show ())
+                  | M.Err e -> emit ("err " ^ own_sp e) (show ())
                   | _ -> emit "PANIC" (show ()))
                | _ -> emit "PANIC" (show ())))
          | Node ("decode", [b]) ->
@@ -439,7 +444,7 @@ let do_h ty (ops : tree list) : string =
          | Node ("try_from", [l]) ->
            (match M.nonempty_try_from (List.map hex (list_of l)) with
             | M.Ok v -> st := Some v; emit "ok" (show ())
-            | M.Err e -> emit ("err " ^ err_sp e) (show ())
+            | M.Err e -> emit ("err " ^ own_sp e) (show ())
             | _ -> emit "PANIC" (show ()))
          | _ -> emit "BAD-OP" (show ())) ops
    | "TAG" | "PSDN" | "ISDNA" | "SA" ->
@@ -450,7 +455,7 @@ let do_h ty (ops : tree list) : string =
          | Node ("try_from", [s]) ->
            (match f (hex s) with
             | M.Ok v -> st := Some v; emit "ok" (show ())
-            | M.Err e -> emit ("err " ^ err_sp e) (show ())
+            | M.Err e -> emit ("err " ^ own_sp e) (show ())
             | _ -> emit "PANIC" (show ()))
          | _ -> emit "BAD-OP" (show ())) ops
    | _ -> emit "BAD-CASE" "type");
